@@ -52,7 +52,7 @@ func init() {
 	register("C12", propMeta{
 		Level: "other",
 		Explanation: "Sound panic-freedom is out of reach (indexing, assertions whose safety is a compiler↔VM invariant). Decided clauses tied to the mechanisms the property names: R12a every write into the per-account balance map goes through a checked lookup (comma-ok / owner that creates the entry), frozen exception repay; R12b the registry of balance variables awaiting resolution is keyed by the resource index (injective); " +
-			"R12c the VM terminates: every store to Machine.P adds a positive constant, every path of tick that reports `not finished` advanced P, Execute leaves its loop when tick reports finished, and every iteration of ResolveResources appends exactly one resource or returns; R12d nothing is left behind: no store to package-level variables in internal/machine/** and internal/engine/command outside initialisers, shared programs are not mutated (R08a) and shared amounts (machine.Zero, constants of a cached program, stored balances) are never modified in place (R12f: mutating big.Int methods only on freshly allocated receivers); R12e compile-time type checks are applied (R08d); R12g no error returned by a function of the compiler is dropped by its caller; R12h a pointer-typed variable value is shown non-nil before it is stored (JSON null). The explicit panics reachable from compile/run are listed in the evidence (informational). R12i: in the machine packages every math/big division (NewRat, SetFrac, Quo, Inv, Div, Rem, Mod …) and integer / or % has a divisor that is a non-zero constant, a Rat.Denom(), or a value tested in a dominating branch.",
+			"R12c the VM terminates: every store to Machine.P adds a positive constant, every path of tick that reports `not finished` advanced P, Execute leaves its loop when tick reports finished, and every iteration of ResolveResources appends exactly one resource or returns; R12d nothing is left behind: no store to package-level variables in internal/machine/** and internal/engine/command outside initialisers, shared programs are not mutated (R08a) and shared amounts (machine.Zero, constants of a cached program, stored balances) are never modified in place (R12f: mutating big.Int methods only on freshly allocated receivers); R12e compile-time type checks are applied (R08d); R12g no error returned by a function of the compiler is dropped by its caller; R12h a pointer-typed variable value is shown non-nil before it is stored (JSON null). The explicit panics reachable from compile/run are listed in the evidence (informational). R12j: the account lock taken for an execution is released on every exit of the executor, error returns of ResolveBalances and vm.Run included (the lock-span path rule R02a of C02, read here for its `released-on-every-exit` obligations: a lock left behind blocks every later execution on those accounts). R12i: in the machine packages every math/big division (NewRat, SetFrac, Quo, Inv, Div, Rem, Mod …) and integer / or % has a divisor that is a non-zero constant, a Rat.Denom(), or a value tested in a dominating branch.",
 		NotDecided:  "the ANTLR parser; index/slice bounds; nil dereferences other than the balance-map ones; JSON variable parsing.",
 		Trusted:     []string{"go/ssa"},
 	}, func(c *Ctx) {
@@ -66,6 +66,7 @@ func init() {
 		ruleR12g(c)
 		ruleR12h(c)
 		ruleR12i(c)
+		ruleR02a(c, "R12j")
 		listPanics(c)
 	})
 }
